@@ -7,6 +7,7 @@
 import HSModel.Generated
 import HSModel.Algo
 import HSModel.Shard
+import HSModel.SyncText
 namespace HS.Tables
 
 /-- [C02, C06, C17] the "other" (non-default) algorithm list -/
@@ -50,5 +51,39 @@ theorem exceptionClasses_eq : Generated.exceptionClasses = some
      "PidRefsAlreadyExistsError".toList, "PidRefsContentError".toList, "PidRefsDoesNotExist".toList,
      "PidRefsFileNotFound".toList, "RefsFileExistsButCidObjMissing".toList,
      "StoreObjectForPidAlreadyInProgress".toList, "UnsupportedAlgorithm".toList] := by decide
+
+/-! ### the synchronisation text of the source (translated on every run, `synctext.py`) -/
+
+/-- [C07, C08, C12, C16] every mode-dependent section of the source is, in both modes, the canonical
+acquire / release / check / refuse text over the list and the condition of one lock class — the
+texts whose semantics the monitor `Locks.Step` is (`SyncText.lean`): the wait is in a `while`, the
+release notifies the condition the acquirers of that list wait on. -/
+theorem sync_sections_canonical : Generated.syncSections = SyncText.expectedSections := by decide +kernel
+
+/-- [C16] the multiprocessing branch of every section is the threading branch with `_mp` for `_th` -/
+theorem sync_mode_mirror : Generated.syncSections.all (fun s => s.2.1 == s.2.2) = true := by decide +kernel
+
+/-- [C16] in multiprocessing mode every lock, condition and list is of the cross-process kind, and
+every class has its list and its condition -/
+theorem sync_init_mp_cross_process : ∃ t, Generated.syncInitMp = some t ∧
+    t.all SyncText.crossProcessRow = true ∧
+    (∀ c : LockClass, SyncText.hasListAndCond t c = true) :=
+  ⟨_, rfl, by decide +kernel, by intro c; cases c <;> decide +kernel⟩
+
+/-- [C07, C08, C12] in threading mode every class has its list and its condition -/
+theorem sync_init_th_complete : ∃ t, Generated.syncInitTh = some t ∧
+    (∀ c : LockClass, SyncText.hasListAndCond t c = true) :=
+  ⟨_, rfl, by intro c; cases c <;> decide +kernel⟩
+
+/-- [C16] the mode is read from the documented environment variable -/
+theorem mode_flag_eq : Generated.modeFlag =
+    some ("USE_MULTIPROCESSING".toList, "False".toList, "True".toList) := by decide +kernel
+
+/-- [C07, C08, C12, C16] the lock order of the source: whenever a method (calls followed) acquires an
+identifier of one list while it may hold one of another, the class goes up in `LockClass.rank`
+(the side condition `hord` of `Step.request`; the order `ConcSafe` uses) — in particular no list is
+acquired while an identifier of the same list is held. -/
+theorem lock_order_ascends : ∃ es, Generated.lockOrderEdges = some es ∧
+    es.all SyncText.edgeAscends = true := ⟨_, rfl, by decide +kernel⟩
 
 end HS.Tables
